@@ -58,8 +58,11 @@ def _spread_file(pf, path, lv):
             m = _re.match(r"^FabOnDisk: (\S+) (\d+)$", ln)
             if m and m.group(1) == fn:
                 lines[i] = f"FabOnDisk: {fn} {newpos[int(m.group(2))]}"
+        if pf.offsets is not None:
+            for b in range(pf.nboxes(lv)):
+                if pf.files[lv][b] == fn:
+                    pf.offsets[lv][b] = newpos[pf.offsets[lv][b]]
     open(ch, "w").write("\n".join(lines))
-    pf.offsets = None
 
 
 def run_menu_scenario(p, wd):
